@@ -119,3 +119,29 @@ pub struct ReplayFile {
     pub minimised: bool,
     pub note: String,
 }
+
+/// Parse the short script form: d:a u:a r:a tap:mwu t:10 jump:20 vk:name:tap layer:name
+pub fn parse_script(s: &str) -> Vec<Op> {
+    let code = |n: &str| -> u16 {
+        if let Some(num) = n.strip_prefix('#') {
+            return num.parse().unwrap_or(0);
+        }
+        kanata_parser::keys::str_to_oscode(n).map(|o| o.as_u16()).unwrap_or_else(|| panic!("unknown key {n}"))
+    };
+    let mut ops = vec![];
+    for tok in s.split_whitespace() {
+        let parts: Vec<&str> = tok.split(':').collect();
+        match parts[0] {
+            "d" => ops.push(Op::Press(code(parts[1]))),
+            "u" => ops.push(Op::Release(code(parts[1]))),
+            "r" => ops.push(Op::Repeat(code(parts[1]))),
+            "tap" => ops.push(Op::TapEvt(code(parts[1]))),
+            "t" => ops.push(Op::Gap(parts[1].parse().unwrap())),
+            "jump" => ops.push(Op::ClockJump(parts[1].parse().unwrap())),
+            "vk" => ops.push(Op::Vkey(parts[1].to_string(), match parts[2] { "press" => 0, "release" => 1, "tap" => 2, _ => 3 })),
+            "layer" => ops.push(Op::ChangeLayer(parts[1].to_string())),
+            _ => panic!("bad token {tok}"),
+        }
+    }
+    ops
+}
